@@ -307,7 +307,7 @@ impl MutationQuery {
             } else if let Some(node) = &mut node_to_mutate.node {
                 let json_data = serde_json::to_string(&json)?;
                 node._json = Some(json_data);
-                node.mdate = date;
+                node.mdate = node_to_mutate.date;
                 let mut current = String::new();
                 extract_json(&json, &mut current)?;
                 node_to_mutate.node_fts_str = Some(current);
@@ -342,6 +342,13 @@ impl MutationQuery {
                 let id = uid_from(id_s)?;
                 let mut node: NodeToMutate = match Node::get_with_entity(&id, entity_short, conn)? {
                     Some(old_node) => {
+                        //a new version is always dated after the version it replaces,
+                        //even when the clock of this device is behind the clock of the device that wrote that version
+                        let date = if old_node.mdate >= date {
+                            old_node.mdate + 1
+                        } else {
+                            date
+                        };
                         let node_room = if room_id.is_some() {
                             room_id
                         } else {
